@@ -355,6 +355,9 @@ func generate(r *vh.Rng, thorough bool, rep *vh.Report) []*kase {
 	for i := 0; i < 1500*mult; i++ {
 		lines = append(lines, genT(r))
 	}
+	for i := 0; i < 1500*mult; i++ {
+		lines = append(lines, genN(r))
+	}
 	for i := 0; i < 500*mult; i++ {
 		lines = append(lines, genW(r, r.PickInt([]int{0, 1, 2, 3, 10, 50})))
 	}
@@ -378,6 +381,9 @@ func generate(r *vh.Rng, thorough bool, rep *vh.Report) []*kase {
 	}
 	for i := 0; i < 400*mult; i++ {
 		lines = append(lines, genP(r))
+	}
+	for i := 0; i < 1500*mult; i++ {
+		lines = append(lines, genS(r))
 	}
 	lines = append(lines, genQ(thorough)...)
 	cases := make([]*kase, len(lines))
